@@ -19,7 +19,7 @@ ASSUMPTIONS = [
     'a catch-all probe handler with priority 1000 marks the dispatch start of every event',
 ]
 REQUIRED = ['pass_with_mixed_priorities', 'fired_from_handler_during_pass', 'stop_called', 'nested_flush', 'equal_priority_ties',
-            'negative_and_float_priorities', 'nested_flush_on_last_of_batch', 'multi_channel_event']
+            'negative_and_float_priorities', 'nested_flush_on_last_of_batch', 'multi_channel_event', 'stop_then_raise']
 REQUIRED_OBLIGATIONS = ['ORD', 'NOJUMP', 'NOREENTRY', 'HPRIO', 'STOP', 'ONCE']
 WORKER_TIMEOUT = {'quick': 300, 'thorough': 1500}
 ENGINE = 'stepping-driver'
@@ -130,6 +130,9 @@ def evaluate(case, w):
             lst.append((hid, prio))
         elif k == 'APIERR':
             problems.append(('API_RAISED', {'call': entry[1], 'error': entry[2], 'in_handler_of_event': entry[3]}))
+        elif k == 'PX':
+            if entry[1] in stops:
+                marks.add('stop_then_raise')
         elif k == 'STOP':
             _, uid, hid = entry
             marks.add('stop_called')
@@ -183,6 +186,11 @@ def corpus():
         HD(1, 'a', 3, []), HD(2, 'a', 1, [['stop']]), HD(3, 'a', 1, []), HD(4, 'a', 0.5, []), HD(5, 'a', -1, []),
         HD(6, 'b', -2, []), HD(7, 'b', -0.5, [['fire', EV('a', 0)]]), HD(8, 'b', 0, []), HD(9, 'b', 0, [['stop']])],
         'passes': [[EV('a'), EV('b'), EV('a', 1)]]})
+    # stop() followed by an exception in the same handler still stops the event; a raise alone does not
+    cs.append({'name': 'stop-then-raise', 'handlers': [
+        HD(1, 'a', 5, []), HD(2, 'a', 2.5, [['stop'], ['raise']]), HD(3, 'a', 1, []), HD(4, 'a', -0.5, []),
+        HD(5, 'b', 2, [['raise']]), HD(6, 'b', 1, [['fire', EV('a', -1)], ['stop'], ['raise']]), HD(7, 'b', 0, [])],
+        'passes': [[EV('a'), EV('b'), EV('a', 1)]]})
     # nested flush in the middle and on the last event of a batch
     cs.append({'name': 'nested-flush', 'handlers': [
         HD(1, 'a', 0, [['fire', EV('c', -1)], ['flush'], ['fire', EV('c', 1)]]), HD(2, 'b', 0, [['fire', EV('c', 0)], ['flush']]),
@@ -222,6 +230,8 @@ def gen_case(rng):
                         body.append(['stop'])
                     elif r < 0.82:
                         body.append(['flush'])
+                if rng.random() < 0.12:
+                    body.append(['raise'])   # a handler may stop the event and then fail: the stop still holds
                 handlers.append(HD(hid, nm, rng.choice(PRIOS), body))
     passes = []
     for _ in range(rng.randint(1, 4)):
